@@ -33,6 +33,8 @@ func main() {
 		err = fam.Reconcile(*scn, *out, *seed, *n)
 	case "hooksel":
 		err = fam.HookSel(*scn, *out, *seed, *n)
+	case "autoskip":
+		err = fam.AutoSkip(*scn, *out, *seed, *n)
 	case "trees":
 		err = fam.Trees(*scn, *out, *seed, *n)
 	case "policyapply":
